@@ -10,6 +10,44 @@ import traceback
 import warnings
 
 
+def all_splink_modules() -> list[str]:
+    import importlib
+    import pkgutil
+
+    import splink.internals as pkg
+
+    names = []
+    for m in pkgutil.walk_packages(pkg.__path__, "splink.internals."):
+        if any(x in m.name for x in (".spark", ".postgres", ".athena")):
+            continue
+        try:
+            importlib.import_module(m.name)
+            names.append(m.name)
+        except Exception:  # noqa: BLE001  optional dependencies
+            pass
+    return names
+
+
+def second_pass_with_shrunk_size_constants(ctx, mod):
+    """The properties quantify over all input sizes, the generated inputs are small.  If the code under test has module-level size
+    thresholds (chunk / batch sizes: integer constants >= 64 in splink/internals), the whole check is run once more with every one of
+    them set to 3, so that small inputs lie beyond the thresholds.  The pinned tree has no such constant: then nothing happens."""
+    from harness import impl
+
+    mods = all_splink_modules()
+    found = impl.size_constants(mods)
+    ctx.count("size_constants_in_code", ", ".join(sorted(found)) or "none")
+    if not found:
+        return
+    ctx.notes.append("size thresholds found in the code: " + ", ".join(f"{k} = {v}" for k, v in sorted(found.items())) + "; second pass with all of them set to 3")
+    ctx.shrunk, ctx.shrunk_names = 3, sorted(found)
+    try:
+        with impl.shrunk_constants(mods, 3):
+            mod.run(ctx)
+    finally:
+        ctx.shrunk = None
+
+
 def main() -> int:
     ap = argparse.ArgumentParser()
     ap.add_argument("prop")
@@ -31,7 +69,22 @@ def main() -> int:
         return 2
     try:
         ctx.drift = core.mirror_drift(ctx.prop)
-        mod.run(ctx)
+        shrink = None
+        if a.replay:
+            import json
+
+            shrink = (json.loads(open(a.replay).read()).get("replay") or {}).get("shrunk_size_constants")
+        if shrink:
+            from harness import impl
+
+            ctx.shrunk = shrink["value"]
+            with impl.shrunk_constants(all_splink_modules(), shrink["value"]) as found:
+                ctx.shrunk_names = sorted(found)
+                mod.run(ctx)
+        else:
+            mod.run(ctx)
+            if not a.replay:
+                second_pass_with_shrunk_size_constants(ctx, mod)
         rc = ctx.finish()
     except Exception:  # harness error: exit 2, never a VIOLATION
         traceback.print_exc()
